@@ -109,6 +109,9 @@ func runConfig(engine, profile string, rt route, cells []cell) {
 	be.ModelsBody = func() []byte { return stack.ModelsFor(t, "m1") }
 	o, err := stack.Boot(stack.Opts{Engine: engine, Balancer: "priority", Profile: profile, ModelDiscovery: true, Endpoints: []stack.EP{{B: be, Priority: 100}}, Mutate: func(c *config.Config) {
 		c.Proxy.ReadTimeout = 30 * time.Second
+		// response_timeout is another setting with another meaning (time to the first byte of the answer): far above the
+		// read timeout for one profile, below it for the others - the stall guard must follow read_timeout in both cases
+		c.Proxy.ResponseTimeout = map[string]time.Duration{"auto": 48 * time.Hour, "streaming": 5 * time.Second, "standard": 7 * time.Second}[profile]
 		c.Translators.Anthropic.PassthroughEnabled = true
 	}})
 	if err != nil {
